@@ -35,6 +35,11 @@ ROPS = ['Add', 'Sub', 'Mul', 'Truediv', 'Floordiv', 'Mod']
 # -3002399751580330 where Python's -(2**53 + 1) / 3 is -3002399751580331.0 (int: ...331).  The exact instance judges
 # such rows (the quotient is a binary64 value) and reports them; they are kept out of the default stream.
 INCLUDE_PENDING_FINDINGS = False
+# Observation on the unchanged tree (reported, not decided): a DERIVED MixedColumn whose cells are NumPy integers
+# (dm.x @ np.abs, not assigned in between) raised to a negative integer power raises NumPy's ValueError ("Integers to
+# negative integer powers are not allowed") where the same column with Python int cells holds the float 1 / cell**k.
+# Kept out of the default stream: the exponents of that family are made non-negative.
+INCLUDE_PENDING_NP_NEGPOW = False
 
 
 def coltype(kind):
@@ -72,7 +77,40 @@ FUNCS = {
     # f(cell) for every cell whichever cell comes first
     'int_or_float': lambda x: (0 if x < 0 else x * 0.5 + 0.25) if (isnum(x) and x == x) else x,
     'float_or_int': lambda x: (x + 0.5 if x < 1 else 3) if (isnum(x) and x == x) else x,
+    # functions that tell apart cells which compare (and hash) equal: +0.0 / -0.0, 3 / 3.0.  A column must hold
+    # f(cell_i) for every cell, not f(some cell equal to cell_i)
+    'copysign': lambda x: math.copysign(1.0, x) if (isnum(x) and x == x) else x,
+    'atan2': lambda x: math.atan2(x, -1.0) if (isnum(x) and x == x) else x,       # atan2(+0, -1) = pi, atan2(-0, -1) = -pi
+    'signbit': lambda x: (1 if math.copysign(1.0, x) < 0 else 0) if (isnum(x) and x == x) else x,
+    'kindname': lambda x: ('i' if isinstance(x, (int, np.integer)) else 'f') if isnum(x) else 't',
 }
+SIGN_FUNCS = ['copysign', 'atan2', 'signbit', 'kindname']
+
+# functions used to DERIVE a column (col @ f / map_(f, col)) on which the judged operation is then applied directly,
+# without assigning it to the table first: the cells of a derived MixedColumn are whatever f returned (NumPy scalars,
+# Python floats with an integral value), those of a Float-/IntColumn come out of the array.  All of them keep text and
+# None, keep non-zero numbers non-zero and small numbers small.
+PREFUNCS = {
+    'np_abs': lambda x: np.abs(x) if isnum(x) else x,
+    'np_neg': lambda x: np.negative(x) if isnum(x) else x,
+    'np_scalar': lambda x: (np.int64(x) if isinstance(x, (int, np.integer)) else np.float64(x)) if isnum(x) else x,
+    'np_int_only': lambda x: np.int64(x) if (isinstance(x, (int, np.integer)) and not isinstance(x, bool)) else x,
+    'np_double': lambda x: np.multiply(x, 2) if isnum(x) else x,
+    'pyfloat': lambda x: float(x) if isnum(x) else x,
+}
+
+
+def plain(v):
+    """the Python number a NumPy scalar stands for (cells of a derived MixedColumn)"""
+    if isinstance(v, np.integer) and not isinstance(v, np.bool_):
+        return int(v)
+    if isinstance(v, np.float64):
+        return float(v)
+    return v
+
+
+def has_np(values):
+    return any(isinstance(v, np.generic) for v in values)
 
 
 def same_lits(a, b):
@@ -147,7 +185,16 @@ class C13:
             'list / tuple / column operands, both orders, Mixed / Float / Int columns and SeriesColumns) exercises it. A row counts as '
             'having left the model only if neither instance judges it: ** outside the exact instance, zero divisors (outside the '
             'quantifier; a MixedColumn raising ZeroDivisionError is compared in the L1 correspondence), int64 overflow, '
-            'x / IntColumn beyond 2**53. non-trivial = the result differs from the source cells; distinct by full input')
+            'x / IntColumn beyond 2**53. Three families of states reached through other operations first: (a) ** with integer '
+            'results between 2**53 and 2**62 (7**20, 3**35, (-3)**39: exact in int64 / Python ints, not binary64 values) for Int- and '
+            'MixedColumn, both operand orders, scalar / NumPy scalar / list / tuple / column operands, every row order; (b) the '
+            'operation (and col @ f / map_) applied directly to a DERIVED column that was not assigned in between -- col @ np.abs, '
+            'map_(np.int64, col), col * signs ...: MixedColumn cells that are NumPy scalars (judged as the numbers they stand for; '
+            'small values, non-negative integer exponents, where NumPy and Python scalar arithmetic coincide) or integral Python '
+            'floats, FloatColumn cells that are negative zeros; (c) col @ f / map_(f, col) with functions that tell equal cells apart '
+            '(copysign, atan2(x, -1), sign bit, int-or-float) on columns holding +0.0 and -0.0, k and float(k) side by side (such '
+            'cells cannot be assigned; they are produced by per-row factors). '
+            'non-trivial = the result differs from the source cells; distinct by full input')
     trusted_base = [
         'Coq 8.16.1 kernel (coqc; vm_compute for evaluating cases; no native_compute)',
         'translator /verif/translate/gen_arith.py (operator table, per-cell code of BaseColumn/NumericColumn/IntColumn._operate, '
@@ -173,7 +220,10 @@ class C13:
         'consistency of the two instances (where exact_op yields a binary64 value, ieee_op yields it too) is TESTED on the grid and on '
         'every generated case (both verdicts are required), not proved for all inputs',
         'zero divisors, int64 overflow, x / IntColumn with |int| > 2**53 (NumPy divides the rounded float64 views) are not judged',
-        'signed zeros are identified (comparison up to Python ==, NaN ~ NaN); everything else bit for bit',
+        'signed zeros are identified in RESULTS (comparison up to Python ==, NaN ~ NaN); everything else bit for bit; source '
+        'cells keep their sign (a function mapped over the column sees it)',
+        'NumPy-scalar cells of a derived MixedColumn are read as Python numbers of the same value (the generator keeps them '
+        'where both arithmetics agree: |value| small, no negative integer exponent, no zero divisor)',
         'fastnumbers is not installed',
         'NumPy scalars / arrays as LEFT operand are outside the claim (NumPy, not the column, handles them)',
         'operands-unchanged and "result is a new object" are observed on the Python side (pyfail), by-value model in Coq',
@@ -212,8 +262,24 @@ class C13:
             if ocol is not None:
                 ocol = ocol[list(order[1])]
         if inp.get('pre'):
-            col = col * 1.0
+            col = self._apply_pre(col, inp['pre'])
         return col, ocol
+
+    def _apply_pre(self, col, pre):
+        """pre = True: col * 1.0; or a list of steps {'k': 'map', 'f': name of PREFUNCS, 'via': 'matmul' | 'map_'} /
+        {'k': 'op', 'op': .., 'refl': .., 'x': {'t': 'scalar', 'v': ..} | {'t': 'seq', 'vs': [..]}}, applied in turn"""
+        from datamatrix import functional as fnc
+        if pre is True:
+            return col * 1.0
+        for st in pre:
+            if st['k'] == 'map':
+                f = PREFUNCS[st['f']]
+                col = fnc.map_(f, col) if st.get('via') == 'map_' else (col @ f)
+            else:
+                x = st['x']
+                v = pyobs.dec(x['v']) if x['t'] == 'scalar' else [pyobs.dec(e) for e in x['vs']]
+                col = PYOP[st['op']](v, col) if st.get('refl') else PYOP[st['op']](col, v)
+        return col
 
     def _operand(self, inp, ocol):
         opd = inp['operand']
@@ -259,7 +325,10 @@ class C13:
             return None
         if kind_of(col) != kind:
             return None
-        cells0 = list(col)
+        raw0 = list(col)
+        # a derived column whose cells are NumPy scalars (col @ np.abs): the cells are judged as the numbers they stand for
+        relaxed = has_np(raw0)
+        cells0 = [plain(v) for v in raw0]
         ids0 = [int(i) for i in col._rowid]
         x, xvals, o_lit = self._operand(inp, ocol)
         xsnap = list(xvals)
@@ -286,7 +355,7 @@ class C13:
                 observed = {'not_a_column': type(r).__name__}
             else:
                 rk = kind_of(r)
-                rcells = list(r)
+                rcells = [plain(v) for v in r] if relaxed else list(r)
                 if any(isinstance(v, complex) for v in rcells):
                     return None             # negative base, fractional exponent: outside the quantifier
                 rids = [int(i) for i in r._rowid]
@@ -331,7 +400,9 @@ class C13:
                     except Exception as e:      # noqa: BLE001
                         pyfail = 'assigning the result back failed: %r' % (e,)
         # operands unchanged
-        if not same_lits(list(col), cells0) or [int(i) for i in col._rowid] != ids0:
+        now0 = list(col)
+        if not same_lits([plain(v) for v in now0], cells0) or [type(v) for v in now0] != [type(v) for v in raw0] \
+                or [int(i) for i in col._rowid] != ids0:
             pyfail = pyfail or 'the column operand was changed by the operation'
         if inp['operand']['t'] == 'col':
             now = list(ocol)
@@ -358,12 +429,14 @@ class C13:
             aux = 'false'
         cls = set()
         for v in cells0:
-            cls.add('cell:' + ('nan' if isinstance(v, float) and math.isnan(v) else type(v).__name__))
+            cls.add('cell:' + ('nan' if isinstance(v, float) and math.isnan(v) else
+                               'negzero' if isinstance(v, float) and v == 0 and math.copysign(1.0, v) < 0 else type(v).__name__))
         return {
             'input': inp, 'observed': observed, 'pyfail': pyfail, 'oracle': oracle, 'model': model, 'aux': aux,
             'oracle_vec': vec, 'nontrivial': nontrivial, 'sig': json.dumps(inp, sort_keys=True),
             'tags': [kind, op, 'x_o_col' if refl else 'col_o_x', 'operand:' + self._opclass(inp['operand']),
                      'order:' + inp.get('order', ['natural'])[0], 'rows:%d' % len(cells0)] + (['derived_column'] if inp.get('pre') else []) + (
+                     ['numpy_cells'] if relaxed else []) + (
                      ['family:' + inp['family']] if inp.get('family') else []) + [
                      'outcome:' + ('raise' if out[0] == 'exn' else 'ok')] + sorted(cls) + ([] if judge else ['malformed']),
         }
@@ -397,7 +470,9 @@ class C13:
             return None
         if kind_of(col) != kind:
             return None
-        cells0 = list(col)
+        raw0 = list(col)
+        relaxed = has_np(raw0)
+        cells0 = [plain(v) for v in raw0]
         ids0 = [int(i) for i in col._rowid]
         c_lit = col_lit(kind, ids0, cells0)
         if c_lit is None:
@@ -419,7 +494,7 @@ class C13:
         else:
             r = out[1]
             rk = kind_of(r) if isinstance(r, BaseColumn) else None
-            rcells = list(r) if rk else []
+            rcells = ([plain(v) for v in r] if relaxed else list(r)) if rk else []
             r_lit = col_lit(rk, [int(i) for i in r._rowid], rcells) if rk else None
             observed = {'type': type(r).__name__, 'cells': [pyobs.jsonable(v) for v in rcells]}
             if r_lit is None:
@@ -429,7 +504,9 @@ class C13:
                 obs_lit = '(Ok %s)' % r_lit
             if r is col:
                 pyfail = pyfail or 'map returned the source column itself'
-        if not same_lits(list(col), cells0) or [int(i) for i in col._rowid] != ids0:
+        now0 = list(col)
+        if not same_lits([plain(v) for v in now0], cells0) or [type(v) for v in now0] != [type(v) for v in raw0] \
+                or [int(i) for i in col._rowid] != ids0:
             pyfail = pyfail or 'the column was changed by map'
         # f on the cells, evaluated independently of the library
         items, seen = [], set()
@@ -446,7 +523,11 @@ class C13:
             'model': '(model_map %s %s %s)' % (tab, c_lit, obs_lit),
             'nontrivial': inp['f'] != 'id', 'sig': json.dumps(inp, sort_keys=True),
             'tags': [kind, 'map', 'f:' + inp['f'], 'via:' + inp.get('via', 'map_'),
-                     'order:' + inp.get('order', ['natural'])[0], 'outcome:' + ('raise' if out[0] == 'exn' else 'ok')],
+                     'order:' + inp.get('order', ['natural'])[0], 'outcome:' + ('raise' if out[0] == 'exn' else 'ok')] + (
+                     ['derived_column'] if inp.get('pre') else []) + (['numpy_cells'] if relaxed else []) + (
+                     ['family:' + inp['family']] if inp.get('family') else []) + (
+                     ['cells:both_zeros'] if self._both_zeros(cells0) else []) + (
+                     ['cells:int_and_equal_float'] if self._int_and_float(cells0) else []),
         }
 
     # ---- SeriesColumn -----------------------------------------------------
@@ -836,6 +917,181 @@ class C13:
         return {'mode': 'series', 'depth': depth, 'rows': [[pyobs.enc(v) for v in row] for row in rows], 'op': op,
                 'refl': refl, 'operand': opd, 'order': self._order(rng, n, order), 'family': 'rounding'}
 
+    # ---- IntColumn / MixedColumn ** with integer results between 2**53 and 2**62 (exact in int64 and in Python ints,
+    #      not representable as binary64: 7**20, 3**35, (-3)**39 ...), both operand orders
+    BIG_BASES = [3, -3, 5, -5, 6, 7, -7, 9, 11, -11, 12, 13, 15, -15, 21, 2, -2]
+
+    def _big_exps(self, b):
+        """exponents e with 2**53 < |b|**e < 2**62"""
+        return [e for e in range(2, 62) if 2 ** 53 < abs(b) ** e < 2 ** 62]
+
+    @staticmethod
+    def _row_sources(ordv, n):
+        """for every position of the column operand (after _build / _cols): the index of its cell in inp['cells']"""
+        if ordv[0] == 'reversed':
+            return list(range(n - 1, -1, -1))
+        if ordv[0] in ('perm', 'colslice'):
+            return list(ordv[1])
+        if ordv[0] == 'sorted':
+            return sorted(range(n), key=lambda i: ordv[1][i])
+        return list(range(n))
+
+    def _bigpow_case(self, rng, kind, refl, form, order, n):
+        ordv = self._order(rng, n, order)
+        m = len(ordv[1]) if ordv[0] == 'colslice' else n
+
+        def pair():
+            c = rng.random()
+            if c < 0.15:
+                return rng.choice([0, 1, -1, 2, 3, -4]), rng.choice([0, 1, 2, 3])
+            b = rng.choice(self.BIG_BASES)
+            es = self._big_exps(b)
+            if c < 0.3:
+                return b, rng.randint(0, es[0] - 1)            # below 2**53
+            return b, rng.choice(es)
+        shared = form in ('int', 'np_int64')
+        if shared and not refl:
+            # col ** e: one exponent, bases for which |b|**e stays below 2**62 (most of them beyond 2**53)
+            e = rng.choice([17, 19, 20, 21, 22, 23, 25, 26, 34, 35, 37, 39])
+            top = max(b for b in range(2, 40) if b ** e < 2 ** 62)
+            cand = [b for b in range(-top, top + 1) if b not in (2, -2, 4, -4, 8, -8)]
+            big = [b for b in cand if abs(b) ** e > 2 ** 53]
+            bases = [rng.choice(big) if rng.random() < 0.7 else rng.choice(cand) for _ in range(n)]
+            exps = e
+        elif shared:
+            # b ** col: one base, exponents
+            b = rng.choice([v for v in self.BIG_BASES if abs(v) > 2])
+            es = self._big_exps(b)
+            exps = [rng.choice(es) if rng.random() < 0.7 else rng.randint(0, es[-1]) for _ in range(n)]
+            bases = b
+        else:
+            ps = [pair() for _ in range(n)]
+            bases, exps = [p[0] for p in ps], [p[1] for p in ps]
+        cells, xs = (exps, bases) if refl else (bases, exps)
+        if kind == 'KMixed':
+            cells = [v if rng.random() > 0.12 else rng.choice(['a', None, '']) for v in cells]
+        if shared:
+            v = np.int64(xs) if form == 'np_int64' else xs
+            opd = {'t': 'scalar', 'v': pyobs.enc(v)}
+        elif form in ('list', 'tuple'):
+            # a sequence operand is applied by position to the rows as they are ordered when the operation is made:
+            # item i is the one drawn for the cell that sits in position i then
+            vs = [xs[j] for j in self._row_sources(ordv, n)]
+            opd = {'t': 'seq', 'as': form, 'vs': [pyobs.enc(v) for v in vs]}
+        else:
+            opd = {'t': 'col', 'kind': form[4:], 'cells': [pyobs.enc(v) for v in xs]}
+        return {'kind': kind, 'cells': [pyobs.enc(v) for v in cells], 'op': 'Pow', 'refl': refl, 'operand': opd,
+                'order': ordv, 'family': 'bigpow'}
+
+    # ---- arithmetic / map directly on a DERIVED column (result of col @ f, map_(f, col) or of an earlier operation,
+    #      not assigned to the table in between): cells that are NumPy scalars, Python floats with integral values,
+    #      negative zeros
+    def _pre_steps(self, rng, kind, m):
+        """how the column is derived before the judged operation (m = its length)"""
+        via = rng.choice(['matmul', 'map_'])
+        if kind == 'KMixed':
+            f = rng.choice(['np_abs', 'np_neg', 'np_scalar', 'np_int_only', 'np_double', 'np_scalar', 'np_abs', 'pyfloat'])
+            steps = [{'k': 'map', 'f': f, 'via': via}]
+            if rng.random() < 0.2:
+                steps.append({'k': 'map', 'f': rng.choice(['np_neg', 'np_int_only']), 'via': 'matmul'})
+            return steps
+        c = rng.random()
+        if c < 0.4:
+            return [{'k': 'map', 'f': rng.choice(['np_abs', 'np_neg', 'np_scalar', 'np_double']), 'via': via}]
+        if c < 0.8 and kind == 'KFloat':
+            # a sign per row: zeros become negative zeros
+            return [{'k': 'op', 'op': 'Mul', 'refl': rng.random() < 0.5,
+                     'x': {'t': 'seq', 'vs': [pyobs.enc(rng.choice([1, -1, -1.0])) for _ in range(m)]}}]
+        return [{'k': 'op', 'op': rng.choice(['Mul', 'Add', 'Sub']), 'refl': rng.random() < 0.5,
+                 'x': {'t': 'scalar', 'v': pyobs.enc(rng.choice([1, -1, 2]) if kind == 'KInt' else rng.choice([1, -1.0, 0.5]))}}]
+
+    def _derived_case(self, rng, kind, op, refl, form, order, n):
+        inp = self._case(rng, kind, op, refl, form, order, n)
+        ordv = inp['order']
+        m = len(ordv[1]) if ordv[0] == 'colslice' else n
+        if kind == 'KFloat' and op != 'Pow' and not (refl and op in ('Truediv', 'Floordiv', 'Mod')) and n:
+            # some zero cells (they may become negative zeros)
+            for i in range(n):
+                if rng.random() < 0.3:
+                    inp['cells'][i] = pyobs.enc(0.0)
+        inp['pre'] = self._pre_steps(rng, kind, m)
+        if op == 'Pow' and kind == 'KMixed' and not INCLUDE_PENDING_NP_NEGPOW:
+            # a NumPy integer to a negative integer power is refused by NumPy (ValueError) where Python yields a
+            # float: exponents are made non-negative here (int ** negative int is covered on plain cells)
+            def fix(e):
+                v = pyobs.dec(e)
+                if isnum(v) and v < 0:
+                    return pyobs.enc(type(v)(-v))
+                if isinstance(v, str):
+                    try:
+                        return pyobs.enc(abs(float(v))) if float(v) < 0 else e
+                    except ValueError:
+                        return e
+                return e
+            if refl:
+                inp['cells'] = [fix(e) for e in inp['cells']]
+                inp['pre'] = [st for st in inp['pre'] if st.get('f') != 'np_neg']
+            else:
+                o = inp['operand']
+                if o['t'] == 'scalar':
+                    o['v'] = fix(o['v'])
+                elif o['t'] == 'seq':
+                    o['vs'] = [fix(e) for e in o['vs']]
+                else:
+                    o['cells'] = [fix(e) for e in o['cells']]
+            if not inp['pre']:
+                inp['pre'] = [{'k': 'map', 'f': 'np_scalar', 'via': 'matmul'}]
+        inp['family'] = 'derived'
+        return inp
+
+    @staticmethod
+    def _both_zeros(cells):
+        z = [math.copysign(1.0, v) for v in cells if isinstance(v, float) and v == 0]
+        return 1.0 in z and -1.0 in z
+
+    @staticmethod
+    def _int_and_float(cells):
+        ints = [v for v in cells if type(v) is int]
+        return any(isinstance(v, float) and v in ints for v in cells)
+
+    def _eqcells_case(self, rng, kind, fname, via, order, n):
+        """col @ f / map_(f, col) on a column holding cells that compare equal but are told apart by f: +0.0 and -0.0
+        (FloatColumn, MixedColumn), k and float(k) (MixedColumn).  Such cells cannot be assigned (type checking turns
+        -0.0 into 0 and 3.0 into 3): the column is the product of an assigned column with per-row factors."""
+        ordv = self._order(rng, n, order)
+        m = len(ordv[1]) if ordv[0] == 'colslice' else n
+        vals = [0, 0, 0, rng.choice([3, 2, -1]), rng.choice([3, 2.5, -4])]
+        cells = [rng.choice(vals) for _ in range(n)]
+        if kind == 'KMixed':
+            cells = [v if rng.random() > 0.1 else rng.choice(['a', None]) for v in cells]
+        src = self._row_sources(ordv, n)            # position in the derived column -> index of its cell
+        p1, p2 = rng.sample(range(m), 2) if m >= 2 else (None, None)
+        if kind == 'KFloat':
+            fs = [rng.choice([1, -1]) for _ in range(m)]
+            if p1 is not None and rng.random() < 0.85:
+                # two zero cells with opposite signs, in either order
+                cells[src[p1]] = cells[src[p2]] = 0
+                fs[p1], fs[p2] = 1, -1
+            steps = [{'k': 'op', 'op': 'Mul', 'refl': rng.random() < 0.5,
+                      'x': {'t': 'seq', 'vs': [pyobs.enc(v) for v in fs]}}]
+            if rng.random() < 0.25:
+                steps.append({'k': 'op', 'op': 'Mul', 'refl': False,
+                              'x': {'t': 'scalar', 'v': pyobs.enc(rng.choice([1.0, -1.0, 2]))}})
+        else:
+            # * 0.5 * 2 (or * -0.5 * 2) turns an int cell into the equal float, a zero into 0.0 / -0.0; * 1 * 1 keeps the int
+            fs = [rng.choice([1, 0.5, -0.5, 0.5]) for _ in range(m)]
+            if p1 is not None and rng.random() < 0.85:
+                v = rng.choice([0, 0, 3])
+                cells[src[p1]] = cells[src[p2]] = v
+                fs[p1], fs[p2] = rng.choice([(1, 0.5), (1, -0.5), (0.5, -0.5)] if v == 0 else [(1, 0.5)])
+                if rng.random() < 0.5:
+                    fs[p1], fs[p2] = fs[p2], fs[p1]
+            steps = [{'k': 'op', 'op': 'Mul', 'refl': rng.random() < 0.5, 'x': {'t': 'seq', 'vs': [pyobs.enc(v) for v in fs]}},
+                     {'k': 'op', 'op': 'Mul', 'refl': rng.random() < 0.5,
+                      'x': {'t': 'seq', 'vs': [pyobs.enc(1 if v == 1 else 2) for v in fs]}}]
+        return {'mode': 'map', 'kind': kind, 'cells': [pyobs.enc(v) for v in cells], 'f': fname, 'via': via,
+                'order': ordv, 'pre': steps, 'family': 'eqcells'}
+
     def round_forms(self, refl):
         fs = ['int', 'float', 'float', 'numeric_text', 'list', 'tuple']
         if not refl:
@@ -931,6 +1187,45 @@ class C13:
                     for order in orders + ['colslice', 'colrange']:
                         for _ in range(1 if tier == 'quick' else 6):
                             add(self._series_case(rng, op, refl, form, order))
+        # ** with integer results between 2**53 and 2**62 (IntColumn: int64; MixedColumn: Python ints)
+        for kind in ('KInt', 'KMixed'):
+            for refl in (False, True):
+                for form in ['int', 'list', 'tuple'] + ([] if refl else ['np_int64', 'col_KInt', 'col_KMixed']):
+                    for order in orders + ['colslice']:
+                        for _ in range(1 if tier == 'quick' else 4):
+                            add(self._bigpow_case(rng, kind, refl, form, order, rng.choice([3, 4, 6])))
+        # the operation applied directly to a derived column (NumPy-scalar cells, integral floats, negative zeros)
+        for kind in KINDS:
+            for op in OPS:
+                for refl in (False, True):
+                    fs = ['int', 'float', 'list', 'numeric_text'] + (['text', 'none'] if op == 'Add' else []) + (
+                        [] if refl else ['np_int64', 'col_KMixed', 'col_KFloat', 'col_KInt'])
+                    if refl and op == 'Mod':
+                        fs.remove('numeric_text')
+                    for form in fs:
+                        for _ in range((2 if kind == 'KMixed' else 1) if tier == 'quick' else 6):
+                            add(self._derived_case(rng, kind, op, refl, form, rng.choice(orders + ['colslice']),
+                                                   rng.choice([3, 4, 6])))
+        # col @ f / map_(f, col) over cells that are equal but distinguishable (+0.0 / -0.0, 3 / 3.0)
+        for kind in ('KFloat', 'KMixed'):
+            for fname in SIGN_FUNCS:
+                if kind == 'KFloat' and fname == 'kindname':
+                    continue            # text cannot be held by a FloatColumn
+                for via in ('matmul', 'map_'):
+                    for order in orders + ['colslice']:
+                        for _ in range(1 if tier == 'quick' else 4):
+                            add(self._eqcells_case(rng, kind, fname, via, order, rng.choice([3, 4, 6])))
+        # col @ f / map_(f, col) on derived columns (NumPy-scalar cells)
+        for kind in KINDS:
+            for fname in sorted(FUNCS):
+                for _ in range(1 if tier == 'quick' else 4):
+                    n = rng.choice([3, 4, 6])
+                    cells = self._cells(rng, kind, n, 'Add', False)
+                    ordv = self._order(rng, n, rng.choice(orders + ['colslice']))
+                    m = len(ordv[1]) if ordv[0] == 'colslice' else n
+                    add({'mode': 'map', 'kind': kind, 'cells': [pyobs.enc(v) for v in cells], 'f': fname,
+                         'via': rng.choice(['matmul', 'map_']), 'order': ordv, 'pre': self._pre_steps(rng, kind, m),
+                         'family': 'derived'})
         # col @ f and map_(f, col)
         for kind in KINDS:
             for fname in sorted(FUNCS):
@@ -970,6 +1265,9 @@ class C13:
                 del opd['vs'][i]
             if opd and opd['t'] == 'col':
                 del opd['cells'][i]
+            for st in (c['pre'] if isinstance(c.get('pre'), list) else []):
+                if st['k'] == 'op' and st['x']['t'] == 'seq':
+                    del st['x']['vs'][i]
             o = c.get('order', ['natural'])
             if o[0] in ('perm', 'sorted'):
                 c['order'] = ['reversed']
